@@ -303,7 +303,8 @@ PrintVal(m, v, end, kont) ==
                                    !.heap = [k \in 1..Len(@) |-> IF k \in ChainOf(m, v.z) THEN [@[k] EXCEPT !.state = "done"] ELSE @[k]]],
                          kont)
             ELSE PushCtl([m EXCEPT !.out = @ \o ZOpen, !.printed = TRUE, !.nstk = @ + 1, !.heap[r].state = "busy"],
-                         <<[rc EXCEPT !.k = "hof", !.zid = r, !.emit = TRUE, !.end = end, !.also = ChainOf(m, v.z)]>> \o kont)
+                         <<[rc EXCEPT !.k = IF rc.op = "zscan" THEN "zscan" ELSE "hof", !.zid = r, !.emit = TRUE, !.end = end,
+                                      !.also = ChainOf(m, v.z)]>> \o kont)
     ELSE IF ZIn(v)      \* vy_print(list) = vy_print(vy_str(list)): the text is built first -- list(lazy) produces every
                         \* item of every cell met, their bodies run now -- and written afterwards
     THEN PushCtl([m EXCEPT !.printed = TRUE], <<[k |-> "k_render", v |-> v], [k |-> "k_printres", v |-> v, end |-> end]>> \o kont)
@@ -368,7 +369,7 @@ Hof(op, fn, items, pre, post) ==
     [k |-> "hof", op |-> op, fn |-> fn, rest |-> items, acc |-> <<>>, cur |-> VI(0), keys |-> <<>>,
      first |-> TRUE, pre |-> pre, post |-> post,
      lz |-> FALSE, zid |-> 0, emit |-> FALSE, end |-> <<>>, state |-> "none",      \* (a heap cell is such a record)
-     src |-> 0, also |-> {}]
+     src |-> 0, also |-> {}, ph |-> "s0", pend |-> VI(0)]
 CopyCell(id) == [Hof("copy", NoFn, <<>>, <<>>, <<>>) EXCEPT !.lz = TRUE, !.state = "new", !.src = id]
 
 (* M F ṡ R with one function argument: <<fn, other>> or none *)
@@ -519,6 +520,43 @@ HofK(m0, h) ==         \* the call returned m0.rv
          [] h.op = "scan" -> PushCtl(m0, <<[back EXCEPT !.cur = r, !.acc = Append(h.acc, r)]>>)
          [] OTHER -> Undef(m0, "hofk")
 
+(* helpers.scanl over a lazily produced list, as the generator runs: it takes the first item, and from then on
+   ALWAYS HOLDS THE NEXT SOURCE ITEM before it hands out a value (`for item in vector: ... yield working;
+   working = f(working, item)`): the source is one item ahead of what has been handed out, and f runs when the
+   consumer comes back for more.  Phases: s0 start, s1k first item arrived, s2 look for the next source item,
+   s2k it arrived (hand out the running value), s3 / s3k combine. *)
+ZScanStep(m0, h) ==
+    LET s == m0.heap[h.src]
+        Pull(ph) == Apply([m0 EXCEPT !.heap[h.src].rest = Tail(s.rest)], s.fn, s.pre \o <<Head(s.rest)>> \o s.post,
+                          <<[h EXCEPT !.ph = ph]>>)
+        Got == [m0 EXCEPT !.heap[h.src].acc = Append(@, m0.rv)]              \* the source keeps what it produced
+        Yield(mm, hh) ==      \* hand out hh.cur: the consumer writes it (emit) and asks again
+            IF ~Printable(hh.cur) THEN Undef(mm, "lazy-item-not-plain")
+            ELSE [mm EXCEPT !.out = IF hh.emit THEN @ \o (IF hh.acc # <<>> THEN ZSep ELSE <<>>) \o Repr(hh.cur) ELSE @]
+        Done(mm, hh) ==
+            [mm EXCEPT !.heap = [k \in 1..Len(@) |-> IF k = hh.zid THEN [@[k] EXCEPT !.state = "done", !.acc = hh.acc]
+                                                      ELSE IF k = hh.src \/ k \in hh.also THEN [@[k] EXCEPT !.state = "done"] ELSE @[k]],
+                       !.out = IF hh.emit THEN @ \o ZClose \o hh.end ELSE @,
+                       !.nstk = IF hh.emit THEN @ - 1 ELSE @]
+    IN CASE h.ph = "s0" ->
+              IF s.state # "new" \/ s.acc # <<>> THEN Undef(m0, "scan-source-already-produced")
+              ELSE IF s.rest = <<>> THEN Done(m0, h)
+              ELSE LET mb == [m0 EXCEPT !.heap[h.src].state = "busy"]
+                   IN Apply([mb EXCEPT !.heap[h.src].rest = Tail(s.rest)], s.fn, s.pre \o <<Head(s.rest)>> \o s.post,
+                            <<[h EXCEPT !.ph = "s1k"]>>)
+         [] h.ph = "s1k" -> PushCtl(Got, <<[h EXCEPT !.ph = "s2", !.cur = m0.rv]>>)
+         [] h.ph = "s2" ->
+              IF s.rest = <<>>
+              THEN LET y == Yield(m0, h) IN IF y.status # "run" THEN y ELSE Done(y, [h EXCEPT !.acc = Append(h.acc, h.cur)])
+              ELSE Pull("s2k")
+         [] h.ph = "s2k" ->
+              LET y == Yield(Got, h)
+              IN IF y.status # "run" THEN y
+                 ELSE PushCtl(y, <<[h EXCEPT !.ph = "s3", !.pend = m0.rv, !.acc = Append(h.acc, h.cur)]>>)
+         [] h.ph = "s3" -> Apply(m0, h.fn, <<h.cur, h.pend>>, <<[h EXCEPT !.ph = "s3k"]>>)
+         [] h.ph = "s3k" -> PushCtl(m0, <<[h EXCEPT !.ph = "s2", !.cur = m0.rv]>>)
+         [] OTHER -> Undef(m0, "zscan")
+
 (* a fixed sequence of calls whose results are pushed (one by one or as a list) *)
 MultiStep(m0, it) ==
     IF it.calls = <<>>
@@ -627,7 +665,15 @@ ModStep(m0, n) ==
                                    calls |-> <<Call1(fA, RevSeq(rA[1])), Call1(fB, RevSeq(rB[1]))>>]>>)
          [] c \in {m_fhook, m_dtail} ->
               LET p == Pop1(m0)
-              IN IF ~FoldOK(p[1]) THEN Undef(m0, "reduce-of-negative-number")
+              IN IF c = m_dtail /\ IsZ(p[1])
+                 THEN \* a cumulative reduction OF a lazily produced list: a second stage that pulls the first one item by item
+                      LET sc == p[2].heap[p[1].z]
+                      IN IF sc.op = "map" /\ sc.state = "new" /\ sc.acc = <<>>
+                         THEN Push([p[2] EXCEPT !.heap = Append(@, [Hof("zscan", fA, <<>>, <<>>, <<>>) EXCEPT
+                                                                      !.lz = TRUE, !.state = "new", !.src = p[1].z])],
+                                   VZ(Len(p[2].heap) + 1))
+                         ELSE Undef(m0, "scan-of-lazy-value")
+                 ELSE IF ~FoldOK(p[1]) THEN Undef(m0, "reduce-of-negative-number")
                  ELSE PushCtl(p[2], <<Hof(IF c = m_fhook THEN "fold" ELSE "scan", fA, FoldItems(p[1]), <<>>, <<>>)>>)
          [] c = m_sz ->
               LET p == Pop1(m0)
@@ -714,6 +760,8 @@ ZSafeItem(m, it) ==
                     [] it.n.tok.k = "variable_set" -> ~TopHasZ(m, 1)
                     [] OTHER -> FALSE
              [] it.n.t \in {"if", "for"} -> ~TopHasZ(m, 1)
+             [] it.n.t = "mon" /\ it.n.m = m_dtail /\ it.n.ops # <<>> ->        \* a scan of the reference on top (only of it)
+                  Stk(m) # <<>> /\ IsZ(Last(Stk(m)))
              [] OTHER -> FALSE           \* modifiers, function calls and definitions, list literals, X / x
       [] it.k \in {"iftest", "whiletest"} -> ~TopHasZ(m, 1)
       [] OTHER -> TRUE
@@ -774,9 +822,10 @@ ItemStep(m0, it) ==
               ELSE IF rc.state = "done"
               THEN [m0 EXCEPT !.heap = [k \in 1..Len(@) |-> IF k \in chain THEN [@[k] EXCEPT !.state = "done"] ELSE @[k]]]
               ELSE PushCtl([m0 EXCEPT !.heap[r].state = "busy"],
-                           <<[rc EXCEPT !.k = "hof", !.zid = r, !.emit = FALSE, !.also = chain]>>)
+                           <<[rc EXCEPT !.k = IF rc.op = "zscan" THEN "zscan" ELSE "hof", !.zid = r, !.emit = FALSE, !.also = chain]>>)
       [] it.k = "k_setreg" -> [m0 EXCEPT !.reg = m0.rv]
       [] it.k = "hof" -> HofStep(m0, it)
+      [] it.k = "zscan" -> ZScanStep(m0, it)
       [] it.k = "hofk" -> HofK(m0, it)
       [] it.k = "multi" -> MultiStep(m0, it)
       [] it.k = "multik" -> MultiK(m0, it)
